@@ -236,6 +236,8 @@ def run(ctx, rep):
                           'reports %d bytes' % got if got == want else 'reports %d bytes of parity although the files hold only %d: a truncated or replaced parity file passes the interlock and sync re-extends it with zeros' % (got, want),
                           function='parity_size', construct='parity size counts recorded bytes')
 
+    short_parity_interlock_rule(P, rep, 'R-C14-1p')
+    empty_disk_interlock_rule(P, rep, 'R-C14-1e')
     # the is_diff flag turns the zero-size refusal into a report (diff must not abort): it has to travel unchanged from the command
     # to the place that tests it -- in every call between functions that both have an `is_diff` parameter the callee's is_diff is
     # the caller's is_diff
@@ -269,3 +271,180 @@ def _params_named(g, name):
     renamed parameter keeps its role; falls back to the declared name"""
     byal = sorted(k for aid, k in g.arg_allocas().items() if (g.insts[aid].var or '') == name)
     return byal or [k for k, a in enumerate(g.args) if a.get('name') == name]
+
+
+def short_parity_interlock_rule(P, rep, rid):
+    """the part of state_sync between the opening of the parity files and the first action on them (the loop over the levels and the
+    DANGER test) is integer-only code around parity_create / parity_size: interpret it (E10) with those two modelled, over every
+    measured size 0..9 bytes (block 4) for one and two levels and used sizes 0..2 blocks.  Expected: sync goes on iff every level
+    holds at least the used number of WHOLE blocks; a partial block does not count (C14e: rounding up accepted a parity cut inside
+    its last used block, which sync then re-extended with zeros)."""
+    from .. import region as RG
+    import itertools
+    f = P.fn('state_sync')
+    rep.analysed(f)
+    rep.rule(rid, 'state_sync short-parity interlock over measured sizes 0..9 (block 4) x 1..2 levels x used 0..2 blocks: sync proceeds iff min over levels of floor(size / block) >= used, otherwise it exits before touching anything', 1)
+    pc = list(f.calls('parity_create'))
+    # the measurement of the interlock is the parity_size call in the loop that opens the parity files
+    ps = [c for c in f.calls('parity_size') if pc and f.loop_of(c.block) is not None and f.loop_of(c.block) == f.loop_of(pc[0].block)]
+    if len(pc) != 1 or len(ps) != 1:
+        raise AnalysisBroken('state_sync: parity_create / parity_size call not found')
+    h = f.loop_of(ps[0].block)
+    if h is None:
+        raise AnalysisBroken('state_sync: the level loop was not found')
+    pre = [b for b in f.pred[h] if b != h and b not in f.loops[h]]
+    if len(pre) != 1:
+        raise AnalysisBroken('state_sync: level loop has no single preheader')
+    ds = P.distructs.get('snapraid_state'); do = P.distructs.get('snapraid_option')
+    if not ds:
+        raise AnalysisBroken('layout of snapraid_state not found')
+    def off(d, name):
+        return [m for m in d['members'] if m['name'] == name][0]['off']
+    O_LEVEL, O_BS = off(ds, 'level'), off(ds, 'block_size')
+
+    class Refused(Exception):
+        pass
+
+    class Proceeds(Exception):
+        pass
+    BS = 4
+    bad = None; n = 0
+    for nlev in (1, 2):
+        for sizes in itertools.product(range(0, 10), repeat=nlev):
+            for used in (0, 1, 2):
+                state_seen = {'k': 0}
+                def ext(ins, args):
+                    cal = ins.callee
+                    if cal == 'parity_create':
+                        return (0,)
+                    if cal == 'parity_size':
+                        R.mem[(args[1].reg, args[1].off)] = sizes[min(state_seen['k'], nlev - 1)]
+                        state_seen['k'] += 1
+                        return (0,)
+                    if cal in ('log_fatal', 'lev_name', 'lev_config_name', 'log_tag', 'log_error', 'msg_warning'):
+                        return (0,)
+                    if cal == 'exit':
+                        raise Refused()
+                    raise Proceeds()
+                R = RG.Region(P, extern=ext)
+                sp = RG.P_(('obj', 'state'), 0); R.zero_regions.add(sp.reg)
+                R.discover = []            # locals first written after the interlock read as 0 (skip_sync)
+                R.zero_regions.add(('glob', 'exit_failure'))
+                R.mem[(sp.reg, O_LEVEL)] = nlev
+                R.mem[(sp.reg, O_BS)] = BS
+                try:
+                    R.set_local(f, 'state', sp)
+                    R.set_local(f, 'used_paritymax', used)
+                    R.set_local(f, 'file_paritymax', 0)
+                except Exception as e:
+                    raise AnalysisBroken('state_sync: locals of the interlock not found: %s' % e)
+                outcome = None
+                try:
+                    R.run(f, pre[0], [], start_idx=0)
+                    outcome = 'returns'
+                except Refused:
+                    outcome = 'refused'
+                except Proceeds:
+                    outcome = 'proceeds'
+                except RG.Unsupported as e:
+                    raise AnalysisBroken('cannot interpret the interlock of state_sync: %s' % e)
+                n += 1
+                want = 'refused' if min(s_ // BS for s_ in sizes) < used else 'proceeds'
+                if outcome != want and bad is None:
+                    bad = 'levels hold %s bytes (block %d), %d blocks are in use: sync %s, expected %s%s' % (list(sizes), BS, used, outcome, want,
+                          ' -- a parity file cut inside a used block is accepted and will be re-extended with zeros' if want == 'refused' else '')
+    rep.check(bad is None, rid, 'state_sync refuses a parity that holds fewer whole blocks than are in use', ps[0].loc(), '%d evaluations' % n if bad is None else bad, function='state_sync', construct='short parity test')
+
+
+def empty_disk_interlock_rule(P, rep, rid):
+    """the "all the files previously present in disk X are now missing or rewritten" interlock of state_diffscan, interpreted (E10)
+    from the statement that clears `done` to the exit / the next section, over every combination of zero / non-zero scan counters of
+    one and two disks.  Expected: sync is refused iff some disk has no file left as it was (equal = move = restore = 0) and at least
+    one recorded file gone or changed (remove or change != 0).  Counters that describe NEW files (copy, insert) must not matter."""
+    from .. import region as RG
+    import itertools
+    f = P.fn('state_diffscan')
+    rep.analysed(f)
+    rep.rule(rid, 'state_diffscan empty-disk interlock over all zero/non-zero values of the 7 scan counters (1 disk exhaustively, 2 disks sampled): refused iff some disk has equal = move = restore = 0 and (remove != 0 or change != 0)', 1)
+    dsn = P.distructs.get('snapraid_scan'); dn = P.distructs.get('tommy_node_struct'); ds = P.distructs.get('snapraid_state')
+    if not (dsn and dn and ds):
+        raise AnalysisBroken('layouts of snapraid_scan / tommy_node not found')
+    def off(d, name):
+        return [m for m in d['members'] if m['name'] == name][0]['off']
+    CN = ['count_equal', 'count_move', 'count_restore', 'count_change', 'count_copy', 'count_insert', 'count_remove']
+    OC = {k: off(dsn, k) for k in CN}
+    N_NEXT, N_DATA = off(dn, 'next'), off(dn, 'data')
+    S_DISKLIST = off(ds, 'disklist')
+    # region start: the store `done = 0` that is followed by the loop testing the counters
+    cnt_loads = [i for i in f.all_insts() if i.op == 'load' and f.expr(['i', i.id]).endswith('->count_equal')]
+    if not cnt_loads:
+        raise AnalysisBroken('state_diffscan: count_equal is not read')
+    h = f.loop_of(cnt_loads[0].block)
+    if h is None:
+        raise AnalysisBroken('state_diffscan: interlock loop not found')
+    pre = [b for b in f.pred[h] if b != h and b not in f.loops[h]]
+    if len(pre) != 1:
+        raise AnalysisBroken('state_diffscan: interlock loop has no single preheader')
+    # the preheader initialises the flags (done / all_missing / all_rewritten) and the two cursors: start at its first instruction
+
+    class Refused(Exception):
+        pass
+
+    class Proceeds(Exception):
+        pass
+    bad = None; n = 0
+    def cases():
+        for v in itertools.product((0, 1), repeat=len(CN)):
+            yield (dict(zip(CN, v)),)
+        base_ = dict.fromkeys(CN, 0)
+        for v in itertools.product((0, 2), repeat=5):
+            d2 = dict(base_); d2.update(zip(['count_equal', 'count_restore', 'count_change', 'count_copy', 'count_remove'], v))
+            yield (dict(base_, count_equal=3), d2)
+            yield (d2, dict(base_, count_equal=3))
+    for disks in cases():
+        def ext(ins, args):
+            cal = ins.callee
+            if cal in ('log_fatal', 'log_tag', 'log_error', 'msg_warning', 'log_flush'):
+                return (0,)
+            if cal == 'exit':
+                raise Refused()
+            raise Proceeds()
+        R = RG.Region(P, extern=ext)
+        R.discover = []
+        R.zero_regions.add(('glob', 'exit_failure'))
+        sp = RG.P_(('obj', 'state'), 0); R.zero_regions.add(sp.reg)
+        prev_d = prev_s = 0
+        for k in reversed(range(len(disks))):
+            dn_ = RG.P_(('obj', 'dnode%d' % k), 0); sn_ = RG.P_(('obj', 'snode%d' % k), 0)
+            do_ = RG.P_(('obj', 'disk%d' % k), 0); so_ = RG.P_(('obj', 'scan%d' % k), 0)
+            for r_ in (dn_, sn_, do_, so_):
+                R.zero_regions.add(r_.reg)
+            R.mem[(dn_.reg, N_NEXT)] = prev_d; R.mem[(dn_.reg, N_DATA)] = do_
+            R.mem[(sn_.reg, N_NEXT)] = prev_s; R.mem[(sn_.reg, N_DATA)] = so_
+            for c_, v_ in disks[k].items():
+                R.mem[(so_.reg, OC[c_])] = v_
+            prev_d, prev_s = dn_, sn_
+        R.mem[(sp.reg, S_DISKLIST)] = prev_d
+        try:
+            R.set_local(f, 'state', sp)
+            R.set_local(f, 'is_diff', 0)
+            R.set_local(f, 'scanlist', prev_s)
+        except Exception as e:
+            raise AnalysisBroken('state_diffscan: locals of the interlock not found: %s' % e)
+        try:
+            R.run(f, pre[0], [], start_idx=0)
+            outcome = 'returns'
+        except Refused:
+            outcome = 'refused'
+        except Proceeds:
+            outcome = 'proceeds'
+        except RG.Unsupported as e:
+            raise AnalysisBroken('cannot interpret the empty-disk interlock: %s' % e)
+        n += 1
+        want = 'refused' if any(d['count_equal'] == 0 and d['count_move'] == 0 and d['count_restore'] == 0 and (d['count_remove'] != 0 or d['count_change'] != 0) for d in disks) else 'proceeds'
+        if outcome == 'returns':
+            outcome = 'proceeds'
+        if outcome != want and bad is None:
+            bad = 'scan counters %s: sync %s, expected %s%s' % ([{k_: v_ for k_, v_ in d.items() if v_} for d in disks], outcome, want,
+                  ' -- every recorded file of the disk is gone or rewritten, yet the array state and parity are updated without --force-empty' if want == 'refused' else '')
+    rep.check(bad is None, rid, 'state_diffscan refuses exactly when all recorded files of a disk are missing or rewritten', f.blocks[h][0].loc(), '%d evaluations' % n if bad is None else bad, function='state_diffscan', construct='empty-disk predicate')
